@@ -232,6 +232,7 @@ def sensor_check(chk):
     from fractions import Fraction
 
     lean.check_theorems(chk, "Poupool.Properties.Sensor", SENSOR_THEOREMS)
+    lean.check_theorems(chk, "Poupool.Properties.C04", ["Poupool.C04.flaky_sensor_no_false_alarm"])  # sensor model + poll decisions, end to end
     low, high = sensor_shapes(chk)
     rng = random.Random(chk.seed + 7)
     cases = [([None] * 10, low, high), ([None] * 9 + [0], low, high), ([low] * 10, low, high), ([high] * 10, low, high), ([high + 1] + [None] * 9, low, high), ([low - 1] * 10, low, high)]
